@@ -267,7 +267,7 @@ def gen_tie_sig():
     """database/parse/utils.py, wildcard.py, signatures/tcp.py, signatures/mtu.py -> Gallina over text in the res monad
     (translate/sig2coq.py), proved equal to Model/SigParse.v (coq/Gen/GenSigP.v), corollaries in coq/Gen/GenSigC.v."""
     return gen_tie_single("sig", "sig2coq.py", "GeneratedSig.v", ["GenSigP.v", "GenSigC.v"], SIG_THEOREMS,
-                          ["Model/Text.v", "Model/SigParse.v", "Model/Sig.v", "Model/Bits.v", "Model/Dump.v", "Proofs/DbParseP.v", "Proofs/DumpP.v", "Proofs/SigTextP.v",
+                          ["Model/Text.v", "Model/SigParse.v", "Model/Sig.v", "Model/Bits.v", "Model/Dump.v", "Model/Matcher.v", "Spec/C01.v", "Proofs/DbParseP.v", "Proofs/DumpP.v", "Proofs/SigTextP.v",
                            "Proofs/TextP.v", "Proofs/BitsP.v"])
 
 
